@@ -3,15 +3,15 @@ from __future__ import annotations
 
 import json
 
-from . import fam_expr, fam_iter, fam_pairs
+from . import fam_expr, fam_iter, fam_pairs, fam_sql
 from .core import Part, open_findings
 
 REGISTRY = {
-    "C06": {"families": [fam_iter.run], "assumptions": ["leaf declarations exact / loose / zero-lower / unbounded, always consistent with the actual row count"]},
-    "C14": {"families": [fam_iter.run], "assumptions": []},
-    "C16": {"families": [fam_iter.run], "assumptions": ["the executor used in the replay really executes the relation in its engine"]},
+    "C06": {"families": [fam_iter.run, fam_sql.run], "assumptions": ["leaf declarations exact / loose / zero-lower / unbounded, always consistent with the actual row count"]},
+    "C14": {"families": [fam_iter.run, fam_sql.run], "assumptions": []},
+    "C16": {"families": [fam_iter.run, fam_sql.run], "assumptions": ["the executor used in the replay really executes the relation in its engine"]},
     "C18": {"families": [fam_iter.run], "assumptions": ["leaf payloads are harness RowIterable subclasses counting __iter__ calls (public extension point)"]},
-    "C20": {"families": [fam_iter.run], "assumptions": ["when a request is ill-formed in two ways (engine and columns) either documented class is accepted"]},
+    "C20": {"families": [fam_iter.run, fam_sql.run], "assumptions": ["when a request is ill-formed in two ways (engine and columns) either documented class is accepted"]},
     "C12": {"families": [fam_expr.run], "assumptions": [
         "SQLite 3.40 (the only database available offline) stands for 'a database'",
         "rows range over a,b in -3..4 (exhaustive part) ; deeper random expressions use the same rows"]},
@@ -19,6 +19,13 @@ REGISTRY = {
         "leaf contents: 14 (quick) / all 85 (thorough) row lists of <=3 rows over a,b in 0..1, zero-column and key/non-key variants",
         "non-key columns are accompanied by the key columns that determine them (documented ColumnTag.is_key contract)",
         "calculated tags are globally fresh (column tags are absolute identifiers)"]},
+    "C02": {"families": [fam_sql.run], "assumptions": [
+        "SQLite 3.40 in memory is the database; both settings of PRAGMA reverse_unordered_selects stand for 'both legal physical row orders'",
+        "bag equality is demanded exactly when TLC's DetTree says every slice sits under a total order (or has a trivial window) on this data",
+        "SQLite cannot parse the parenthesised nested compound selects SQLAlchemy renders for a chain whose operand is a bare chain: such states are compiled but not executed (counted in evidence)"]},
+    "C08": {"families": [fam_sql.run, fam_iter.run], "assumptions": ["each occurrence of a leaf table in one query gets its own alias (as a user must do for self-joins)"]},
+    "C11": {"families": [fam_sql.run], "assumptions": ["list equality is demanded exactly when TLC's OrdTree says the outermost level carries a sort that totally orders its rows"]},
+    "C17": {"families": [fam_sql.run], "assumptions": []},
     "C04": {"families": [fam_pairs.run], "assumptions": [
         "targets: every row list of length <=3 over a,b in 0..1 (85 targets); slices: one-column targets of length 0..6",
         "tag reuse (a calculated tag that already exists upstream) is outside the documented contract and not generated"]},
